@@ -723,6 +723,132 @@ fn op_mpm_mnt4(t: &mut Tape<'_>) -> Outcome {
     op_multi_pairing_many::<ark_mnt4_298::MNT4_298>(t, 70, "multi-pairing-many/mnt4_298")
 }
 
+fn op_mle_large(t: &mut Tape<'_>) -> Outcome {
+    use vh_core::zoo::Gold;
+    let mut s = Stream::new(t.u64());
+    let mode = t.below(5);
+    let mut out = Vec::new();
+    let (nv, what);
+    match mode {
+        0 | 1 | 2 => {
+            nv = t.range(13, 19) as usize;
+            let a = DenseMultilinearExtension::<Gold>::from_evaluations_vec(nv, (0..1u64 << nv).map(|_| Gold::from(s.next())).collect());
+            match mode {
+                0 => {
+                    what = "dense + - neg scale";
+                    let b = DenseMultilinearExtension::<Gold>::from_evaluations_vec(nv, (0..1u64 << nv).map(|_| Gold::from(s.next())).collect());
+                    out = ser(&(&a + &b).evaluations);
+                    out.extend(ser(&(&a - &b).evaluations));
+                    out.extend(ser(&(-a.clone()).evaluations));
+                    let mut c = a.clone();
+                    c += (Gold::from(s.next()), &b);
+                    out.extend(ser(&c.evaluations));
+                },
+                1 => {
+                    what = "dense fix_variables / evaluate";
+                    let pt: Vec<Gold> = (0..nv).map(|_| Gold::from(s.next())).collect();
+                    let k = match t.below(3) {
+                        0 => t.below(6) as usize,
+                        1 => nv,
+                        _ => t.below(nv as u64 + 1) as usize,
+                    };
+                    out = ser(&a.fix_variables(&pt[..k]).evaluations);
+                    out.extend(ser(&a.evaluate(&pt)));
+                },
+                _ => {
+                    what = "dense relabel";
+                    let w = 1 + t.below((nv / 2) as u64) as usize;
+                    let lo = t.below((nv - 2 * w + 1) as u64) as usize;
+                    let hi = lo + w + t.below((nv - 2 * w - lo + 1) as u64) as usize;
+                    out = ser(&a.relabel(lo, hi, w).evaluations);
+                },
+            }
+        },
+        _ => {
+            nv = t.range(12, 18) as usize;
+            what = if mode == 3 { "sparse relabel / add / neg" } else { "sparse fix_variables / evaluate" };
+            let target = match t.below(3) {
+                0 => t.range(1, 1200) as usize,
+                1 => ((1usize << t.range(10, 13)) + t.below(9) as usize).saturating_sub(4),
+                _ => t.range(1200, 12000) as usize,
+            }
+            .min(1 << nv);
+            let mut m = std::collections::BTreeMap::new();
+            while m.len() < target {
+                m.insert((s.next() as usize) & ((1 << nv) - 1), Gold::from(s.next() | 1));
+            }
+            let ev: Vec<(usize, Gold)> = m.into_iter().collect();
+            let sp = SparseMultilinearExtension::<Gold>::from_evaluations(nv, &ev);
+            if mode == 3 {
+                let w = 1 + t.below((nv / 2) as u64) as usize;
+                let lo = t.below((nv - 2 * w + 1) as u64) as usize;
+                let hi = lo + w + t.below((nv - 2 * w - lo + 1) as u64) as usize;
+                let r = sp.relabel(lo, hi, w);
+                out = ser(&r.evaluations.iter().map(|(i, v)| (*i as u64, *v)).collect::<Vec<_>>());
+                let sum = &sp + &r;
+                out.extend(ser(&sum.evaluations.iter().map(|(i, v)| (*i as u64, *v)).collect::<Vec<_>>()));
+                out.extend(ser(&(-sp.clone()).evaluations.iter().map(|(i, v)| (*i as u64, *v)).collect::<Vec<_>>()));
+            } else {
+                let pt: Vec<Gold> = (0..nv).map(|_| Gold::from(s.next())).collect();
+                let k = t.range(nv as u64 - 6, nv as u64) as usize;
+                out = ser(&sp.fix_variables(&pt[..k]).to_evaluations());
+                out.extend(ser(&sp.evaluate(&pt)));
+            }
+        },
+    }
+    Outcome { bytes: out, desc: format!("mle-large/Goldilocks: {} variables, {}", nv, what), above_threshold: true, size: 1 << nv }
+}
+
+fn op_poly_arith_large(t: &mut Tape<'_>) -> Outcome {
+    use vh_core::zoo::Gold;
+    let mut s = Stream::new(t.u64());
+    let mode = t.below(4);
+    let la = large_len(t, 1 << 17).max(1);
+    let a = DensePolynomial::<Gold>::from_coefficients_vec((0..la).map(|_| Gold::from(s.next())).collect());
+    let mut out;
+    let what;
+    match mode {
+        0 => {
+            what = "a * b (FFT multiplication)";
+            let lb = large_len(t, 1 << 15).max(1);
+            let b = DensePolynomial::<Gold>::from_coefficients_vec((0..lb).map(|_| Gold::from(s.next())).collect());
+            out = ser(&(&a * &b));
+        },
+        1 => {
+            what = "a * k, a += (k, b), a + b, a - b";
+            let lb = large_len(t, 1 << 17).max(1);
+            let b = DensePolynomial::<Gold>::from_coefficients_vec((0..lb).map(|_| Gold::from(s.next())).collect());
+            let k = Gold::from(s.next());
+            out = ser(&(&a * k));
+            let mut c = a.clone();
+            c += (k, &b);
+            out.extend(ser(&c));
+            out.extend(ser(&(&a + &b)));
+            out.extend(ser(&(&a - &b)));
+        },
+        2 => {
+            what = "sparse * scalar / sparse evaluate";
+            let terms = large_len(t, 1 << 16).max(1);
+            let cs: Vec<(usize, Gold)> = (0..terms).map(|i| (i * 3 + (s.next() % 3) as usize, Gold::from(s.next() | 1))).collect();
+            let sp = SparsePolynomial::<Gold>::from_coefficients_vec(cs);
+            out = ser(&sp.evaluate(&Gold::from(s.next() | 2)));
+            out.extend(ser(&(&sp * Gold::from(s.next()))));
+        },
+        _ => {
+            what = "evaluate_over_domain of a polynomial longer than the domain (owned and by reference), interpolate";
+            let n = 1usize << t.range(4, 14);
+            let d = GeneralEvaluationDomain::<Gold>::new(n).unwrap();
+            let d = if t.bool() { d.get_coset(Gold::from(7u64)).unwrap() } else { d };
+            let e = a.evaluate_over_domain_by_ref(d);
+            out = ser(&e.evals);
+            let e2 = a.clone().evaluate_over_domain(d);
+            out.extend(ser(&e2.evals));
+            out.extend(ser(&e2.interpolate()));
+        },
+    }
+    Outcome { bytes: std::mem::take(&mut out), desc: format!("poly-arith-large/Goldilocks: {} coefficients, {}", la, what), above_threshold: true, size: la }
+}
+
 pub fn ops() -> Vec<Op> {
     vec![
         Op { name: "fft/radix2.Goldilocks", tape_len: 14, cases_quick: 240, cases_thorough: 3000, run: op_fft_gold },
@@ -760,6 +886,8 @@ pub fn ops() -> Vec<Op> {
         Op { name: "multi-pairing-many/bls12_381", tape_len: 6, cases_quick: 6, cases_thorough: 60, run: op_mpm_bls381 },
         Op { name: "multi-pairing-many/bn254", tape_len: 6, cases_quick: 6, cases_thorough: 60, run: op_mpm_bn254 },
         Op { name: "multi-pairing-many/mnt4_298", tape_len: 6, cases_quick: 4, cases_thorough: 40, run: op_mpm_mnt4 },
+        Op { name: "mle-large/Goldilocks", tape_len: 12, cases_quick: 30, cases_thorough: 400, run: op_mle_large },
+        Op { name: "poly-arith-large/Goldilocks", tape_len: 12, cases_quick: 30, cases_thorough: 400, run: op_poly_arith_large },
         Op { name: "mle/bls12_381.Fr", tape_len: 10, cases_quick: 240, cases_thorough: 3000, run: op_mle },
     ]
 }
